@@ -290,9 +290,10 @@ def _initial_velocity_postconditions(ctx, md):
     Temp = sp.Integer(300)
     ndof = sp.Integer(6)
     for vel_com in (False, True):
-        I = NpSym(repo, stubs={"torch.randn_like": lambda x, *a, **k: G.copy()})
+        I = NpSym(repo, stubs={"torch.randn_like": lambda x, *a, **k: G.copy(), "torch.manual_seed": lambda *a, **k: None, "torch.cuda.manual_seed_all": lambda *a, **k: None,
+                               "torch.cuda.manual_seed": lambda *a, **k: None})
         mol = types.SimpleNamespace(mass=mass.copy(), mass_inverse=minv.copy(), coordinates=coords.copy(), velocities=None)
-        selfns = types.SimpleNamespace(Temp=Temp, n_dof=ndof)
+        selfns = types.SimpleNamespace(Temp=Temp, n_dof=ndof, seed=0)
         for nm in ("_kinetic_energy", "_calc_temperature", "_zero_com"):
             setattr(selfns, nm, _bind(I, md, md.func(f"Molecular_Dynamics_Basic.{nm}"), selfns))
         try:
@@ -408,6 +409,10 @@ def _bind(I, md, f_, selfns):
         return I.call_function(md, f_, [selfns] + list(a), k)
     return call
 def _r6_dof_and_forwarding(ctx, repo):
+    from ..assembly import com_setup_verdicts
+    _cv = com_setup_verdicts(repo)
+    _md = repo.mod(MD)
+    ctx.check(_cv["dof"][0], "R6", _md, _md.func("XL_BOMD.set_dof"), "set_dof", "n_dof of the three engines (interpreted)", _cv["dof"][1], _cv["dof"][1])
     md = repo.mod(MD)
     nad = repo.mod(NAD)
     # (a) every set_dof computes n_dof from the number of real atoms of each molecule
